@@ -38,3 +38,22 @@ def validate(ctx, module, cfg, histories, label, chunk=3000):
     """histories: list of dicts with 'ev'. Returns indices of P-rejected histories."""
     rej = scheck.validate_histories(ctx, module, cfg, histories, label, chunk=chunk)
     return [r for r in rej if isinstance(r, int)]
+
+
+async def wait_for_ports(limit=14000, timeout=120.0):
+    """Every finished TCP connection keeps an ephemeral port in TIME_WAIT for a minute; tens of thousands of short transactions
+    exhaust the range (bind/connect then fail with EADDRINUSE/EADDRNOTAVAIL).  Pause while too many are waiting."""
+    import asyncio, time
+    t0 = time.time()
+    while time.time() - t0 < timeout:
+        tw = 0
+        try:
+            for line in open('/proc/net/sockstat'):
+                if line.startswith('TCP:'):
+                    f = line.split()
+                    tw = int(f[f.index('tw') + 1])
+        except (OSError, ValueError):
+            return
+        if tw < limit:
+            return
+        await asyncio.sleep(1.0)
